@@ -1,0 +1,29 @@
+//go:build verif
+
+// Contracts checked by /verif/govc (comment-only; compiled only with -tags verif).
+package multicommit
+
+// (seqOf / committedSeq and the Committer.Commit contract are in frontend/contracts_verif.go)
+
+// the multicommitter cached in the builder's key-value store (external storage)
+//@ contract getCached
+//@   trusted "key-value store of the builder (external)"
+//@   ensures result != nil && allocated(result)
+
+// WithCommitment registers as many variables as it is given, after those registered before, and the callback
+// (element-wise equality of the appended block is not proved)
+// nCommitted(api, 0) abstracts len(mct.vars) of the multicommitter cached behind api (the cache is external
+// storage, so the link is stated, not derived): the effect clause mirrors @appended
+//@ ghost nCommitted int
+//@ contract WithCommitment
+//@   props C13
+//@   assigns api, nCommitted(api, 0)
+//@   constraint nCommitted(api, 0) == old(nCommitted(api, 0)) + len(committedVariables)
+//@   ensures @appended len(mct.vars) == old(len(mct.vars)) + len(committedVariables)
+//@   ensures @callback len(mct.cbs) == old(len(mct.cbs)) + 1
+
+// the one commitment every callback's challenge derives from is taken over all registered variables
+//@ contract (*multicommitter).commitAndCall
+//@   props C13
+//@   requires mct != nil && api != nil
+//@   ensures @all-data result == nil ==> committedSeq(committer, 0) == old(seqOf(mct.vars))
